@@ -273,6 +273,76 @@ func rewriteFile(name string, src []byte) ([]byte, []string, error) {
 		}
 		return out
 	}
+	// goroutines the library starts itself are outside the scheduler's control; their presence switches
+	// on the per-yield check "is this the task's own goroutine" (see sim.Task.Yield)
+	ast.Inspect(f, func(node ast.Node) bool {
+		if g, ok := node.(*ast.GoStmt); ok {
+			n = append(n, fmt.Sprintf("go:%s:%d", name, fset.Position(g.Pos()).Line))
+		}
+		return true
+	})
+	// the clock: time.Now / Since / Until / Sleep read and advance the simulator's clock instead of the
+	// machine's (a changed tree may introduce expiry times or pauses; the unchanged one has none)
+	timeUsed := false
+	for _, imp := range f.Imports {
+		if imp.Path.Value == `"time"` && imp.Name == nil {
+			timeUsed = true
+		}
+	}
+	if timeUsed {
+		rewrites := 0
+		ast.Inspect(f, func(node ast.Node) bool {
+			call, ok := node.(*ast.CallExpr)
+			if !ok {
+				return true
+			}
+			sel, ok := call.Fun.(*ast.SelectorExpr)
+			if !ok {
+				return true
+			}
+			if id, ok := sel.X.(*ast.Ident); ok && id.Name == "time" && id.Obj == nil {
+				switch sel.Sel.Name {
+				case "Now", "Since", "Until", "Sleep", "AfterFunc", "NewTimer", "After":
+					call.Fun = &ast.Ident{Name: "simTime" + sel.Sel.Name, NamePos: sel.Pos()}
+					n = append(n, fmt.Sprintf("time:%s:%d", name, fset.Position(sel.Pos()).Line))
+					rewrites++
+				}
+			}
+			return true
+		})
+		// the type of what AfterFunc / NewTimer return: time.Timer -> simTimer wherever it is named
+		var fixType func(e *ast.Expr)
+		fixType = func(e *ast.Expr) {
+			if sel, ok := (*e).(*ast.SelectorExpr); ok {
+				if id, ok := sel.X.(*ast.Ident); ok && id.Name == "time" && id.Obj == nil && sel.Sel.Name == "Timer" {
+					*e = &ast.Ident{Name: "simTimer", NamePos: sel.Pos()}
+					rewrites++
+				}
+			}
+		}
+		ast.Inspect(f, func(node ast.Node) bool {
+			switch t := node.(type) {
+			case *ast.StarExpr:
+				fixType(&t.X)
+			case *ast.Field:
+				fixType(&t.Type)
+			case *ast.ValueSpec:
+				if t.Type != nil {
+					fixType(&t.Type)
+				}
+			case *ast.CompositeLit:
+				if t.Type != nil {
+					fixType(&t.Type)
+				}
+			}
+			return true
+		})
+		if rewrites > 0 {
+			// keep the import used whatever is left
+			f.Decls = append(f.Decls, &ast.GenDecl{Tok: token.VAR, Specs: []ast.Spec{&ast.ValueSpec{
+				Names: []*ast.Ident{{Name: "_"}}, Values: []ast.Expr{&ast.SelectorExpr{X: &ast.Ident{Name: "time"}, Sel: &ast.Ident{Name: "Nanosecond"}}}}}})
+		}
+	}
 	ast.Inspect(f, func(node ast.Node) bool {
 		switch t := node.(type) {
 		case *ast.BlockStmt:
@@ -298,9 +368,135 @@ const autoHookSource = `//go:build verif
 
 package restful
 
-import "sync"
+import (
+	"sync"
+	"time"
+)
 
 // Generated into the scratch copy by simcheck (autohook.go); not part of the repository.
+
+// SimKindNow: a is a *time.Time to fill with the simulated time; SimKindSleep: a is a time.Duration.
+const (
+	SimKindNow   = 4
+	SimKindSleep = 5
+)
+
+func simTimeNow() time.Time {
+	if SimHook != nil {
+		var t time.Time
+		SimHook(SimKindNow, "time.Now", &t, false)
+		if !t.IsZero() {
+			return t
+		}
+	}
+	return time.Now()
+}
+
+func simTimeSince(t time.Time) time.Duration { return simTimeNow().Sub(t) }
+func simTimeUntil(t time.Time) time.Duration { return t.Sub(simTimeNow()) }
+
+// simTimer stands for time.Timer: it is due on the simulator's clock, which fires it.
+type simTimer struct {
+	C       <-chan time.Time
+	c       chan time.Time
+	mu      sync.Mutex
+	due     time.Time
+	f       func()
+	pending bool
+	real    *time.Timer // when no simulator is attached
+}
+
+// SimKindTimer: a is a SimTimerHandle that became pending.
+const SimKindTimer = 6
+
+// SimTimerHandle is what the simulator sees of a pending timer.
+type SimTimerHandle interface {
+	Due() (time.Time, bool) // false: stopped or fired meanwhile
+	Fire()                  // runs the function on a goroutine of its own / delivers on C, as time.Timer does
+}
+
+func (t *simTimer) Due() (time.Time, bool) {
+	t.mu.Lock()
+	defer t.mu.Unlock()
+	return t.due, t.pending
+}
+
+func (t *simTimer) Fire() {
+	t.mu.Lock()
+	if !t.pending {
+		t.mu.Unlock()
+		return
+	}
+	t.pending = false
+	f := t.f
+	t.mu.Unlock()
+	if f != nil {
+		go f()
+		return
+	}
+	select {
+	case t.c <- simTimeNow():
+	default:
+	}
+}
+
+func (t *simTimer) arm(d time.Duration) {
+	t.mu.Lock()
+	t.due = simTimeNow().Add(d)
+	t.pending = true
+	t.mu.Unlock()
+	SimHook(SimKindTimer, "time.Timer", SimTimerHandle(t), false)
+}
+
+func (t *simTimer) Stop() bool {
+	if t.real != nil {
+		return t.real.Stop()
+	}
+	t.mu.Lock()
+	defer t.mu.Unlock()
+	was := t.pending
+	t.pending = false
+	return was
+}
+
+func (t *simTimer) Reset(d time.Duration) bool {
+	if t.real != nil {
+		return t.real.Reset(d)
+	}
+	was := t.Stop()
+	t.arm(d)
+	return was
+}
+
+func simTimeAfterFunc(d time.Duration, f func()) *simTimer {
+	if SimHook == nil {
+		return &simTimer{real: time.AfterFunc(d, f)}
+	}
+	t := &simTimer{f: f}
+	t.arm(d)
+	return t
+}
+
+func simTimeNewTimer(d time.Duration) *simTimer {
+	if SimHook == nil {
+		r := time.NewTimer(d)
+		return &simTimer{real: r, C: r.C}
+	}
+	c := make(chan time.Time, 1)
+	t := &simTimer{c: c, C: c}
+	t.arm(d)
+	return t
+}
+
+func simTimeAfter(d time.Duration) <-chan time.Time { return simTimeNewTimer(d).C }
+
+func simTimeSleep(d time.Duration) {
+	if SimHook != nil {
+		SimHook(SimKindSleep, "time.Sleep", d, false)
+		return
+	}
+	time.Sleep(d)
+}
 
 // SimKindProbe: a is a SimProbe.
 const SimKindProbe = 3
